@@ -89,7 +89,9 @@ def get_fs(waterfall):
     df = waterfall.header['foff']
     fchans = waterfall.header['nchans']
 
-    return np.arange(fch1, fch1 + fchans * df, df)
+    # Built from the integer channel count; np.arange with a float step can
+    # come out one element long or short
+    return fch1 + np.arange(fchans) * df
 
 
 def get_ts(waterfall):
@@ -114,4 +116,4 @@ def get_ts(waterfall):
     tsamp = waterfall.header['tsamp']
     tchans = waterfall.container.selection_shape[0]
 
-    return np.arange(0, tchans * tsamp, tsamp)
+    return np.arange(tchans) * tsamp
